@@ -42,6 +42,14 @@ def _json_world(ix):
     stubs = {"@with": "transparent", "json.dumps": lambda it, s, a, k, n: [(s, "val", "<json>")],
              "StreamTok.write": lambda it, s, a, k, n: [(s, "val", None)],
              "StreamTok.flush": lambda it, s, a, k, n: [(s, "val", None)]}
+    def copy_tok(it_, s, a, k, n):
+        if isinstance(a[0], Ref):
+            o = s.obj(a[0])
+            return [(s, "val", s.alloc(HObj(o.cls, dict(o.fields), label=(o.label or "") + " (copy)")))]
+        return [(s, "val", a[0])]
+    stubs["StepTok.reset"] = lambda it_, s, a, k, n: [(s, "val", None)]
+    stubs["copy.copy"] = copy_tok
+    stubs["copy.deepcopy"] = copy_tok
     it = Interp(ix, stubs=stubs, attr_stubs={}, name="JSONFormatter")
     it.int_sat = 1000       # a fixed script is evaluated: keep the step cursor exact
     st = State()
